@@ -14,7 +14,9 @@ META = {
         "(3) typing before routing: every path of set_or_call that reaches a routing step carries: element found, not "
         "fetch-only, (STATE => value != NULL) and (METHOD => value == NULL); "
         "(4) R-COMMIT: on no path of add/remove/change/set/call is an error response returned after a commit effect on the "
-        "element set (index put/remove, list link/unlink of an indexed element, store to the value of an indexed element)."),
+        "element set (index put/remove, list link/unlink of an indexed element, store to the value of an indexed element); "
+        "(5) the dual: a success answer of change/add/remove implies on that path that the value was stored (deep copy of the "
+        "request's value) and announced, resp. the element inserted, linked and announced, resp. removed."),
     "not_decided": "behaviour of the index under hash collisions (C17); string comparison semantics; which error code is returned",
     "assumptions": ["cJSON object lookups are not interpreted"],
 }
@@ -288,9 +290,70 @@ def clause4_commit(ctx, P, cg):
     ctx.floor("C04.4 R-COMMIT", 4)
 
 
+def clause5_success_effect(ctx, P, cg):
+    """dual of error => unchanged: a success answer of add/remove/change implies that the effect happened on that path"""
+    SUCC = Q.macro(P, "element.c", "HASHTABLE_SUCCESS")
+    outset = Q.make_outset(ctx, P, cg)
+    ch = P.fn("element.c:change_state")
+    bad = None
+    n = 0
+    for v in Q.path_views(ctx, P, ch):
+        rt = Q.ret_value_term(v, outset)
+        if not Q.is_call_to(rt, "create_success_response_from_request"):
+            continue
+        n += 1
+        stored = False
+        for _, i in v.insts():
+            if i.op == "store":
+                dt = P.term(ch, i.a[1])
+                vt = P.term(ch, i.a[0])
+                if dt[0] == "field" and dt[2] == "struct.element" and dt[3] == "value" and Q.is_call_to(vt, "cJSON_Duplicate") and \
+                        Q.is_call_to(vt[2][0], "cJSON_GetObjectItem") and vt[2][0][2][1] == ("str", "value") and vt[2][1] == ("const", 1):
+                    stored = True
+        notified = any(Q.arg_literal(P, i, 1) == "change" for _, i in v.calls("notify_fetchers"))
+        if not (stored and notified):
+            bad = (v, "stored=%s notified=%s" % (stored, notified))
+    ctx.ob("C04.5 R-COMMIT", ch, "success=>value-stored-and-announced", bad is None and n > 0,
+           "change is answered with success on a path that did not store a deep copy of the request's value and announce it (%s): "
+           "subscribers keep replaying the old value" % (bad[1] if bad else ""), witness=bad[0].witness() if bad else None)
+    add = P.fn("element.c:add_element_to_peer")
+    bad = None
+    n = 0
+    for v in Q.path_views(ctx, P, add):
+        rt = Q.ret_value_term(v, outset)
+        if not Q.is_call_to(rt, "create_success_response_from_request"):
+            continue
+        n += 1
+        put = v.has_atom(lambda a, p: a[0] == "cmp" and Q.is_call_to(a[2], "element_table_put") and a[3] == ("const", SUCC) and Q._poleq(a, p))
+        linked = any(True for _ in v.calls("list_add_tail"))
+        ann = any(True for _ in v.calls("find_fetchers_for_element"))
+        if not (put and linked and ann):
+            bad = (v, "inserted=%s linked=%s announced=%s" % (put, linked, ann))
+    ctx.ob("C04.5 R-COMMIT", add, "success=>inserted-linked-announced", bad is None and n > 0,
+           "add is answered with success although the element was not inserted, linked to its owner and announced (%s)" % (bad[1] if bad else ""),
+           witness=bad[0].witness() if bad else None)
+    rm = P.fn("element.c:remove_element_from_peer")
+    bad = None
+    n = 0
+    for v in Q.path_views(ctx, P, rm):
+        rt = Q.ret_value_term(v, outset)
+        if not Q.is_call_to(rt, "create_success_response_from_request"):
+            continue
+        n += 1
+        if not any(True for _ in v.calls("remove_element")):
+            bad = v
+    ctx.ob("C04.5 R-COMMIT", rm, "success=>removed", bad is None and n > 0, "remove is answered with success without removing the element",
+           witness=bad.witness() if bad else None)
+    re = P.fn("element.c:remove_element")
+    names = [P.srcname_of(i.callee) for i in re.all_insts() if i.op == "call" and i.callee]
+    ctx.ob("C04.5 R-COMMIT", re, "remove-is-complete", re.nblocks == 1 and names == ["notify_fetchers", "list_del", "element_table_remove", "free_element"],
+           "remove_element is not the unconditional sequence announce, unlink, un-index, free (found %s)" % names)
+
+
 def run(ctx):
     for cfg in ctx.configs():
         clause1_unique(ctx, cfg.P)
         clause2_owner(ctx, cfg.P)
         clause3_typing(ctx, cfg.P)
         clause4_commit(ctx, cfg.P, cfg.cg)
+        clause5_success_effect(ctx, cfg.P, cfg.cg)
